@@ -440,10 +440,14 @@ Step(s, ev, ch) ==
     CASE ev.k = "recv"    -> Recv(s, ev, ch)
       [] ev.k = "recvbad" -> RecvBad(s)
       [] ev.k = "recvundec" -> RecvUndecodable(s)
+      [] ev.k = "recvlong" -> RecvUndecodable(s)     \* a line longer than the stream limit: a transport error as well
       [] ev.k = "send"    -> Send(s, ev, ch)
       [] ev.k = "sendjunk" -> SendJunk(s)
       [] ev.k = "reboot"  -> SetReboot(s, ev.n)
       [] ev.k = "cycle"   -> Quiet(s, Done)     \* the gateway context is left and entered again: nothing changes
+      [] ev.k = "snapshot" -> Quiet(s, Done)    \* the registry is saved to a file
+      [] ev.k = "reload"  -> Quiet(s, Done)     \* an earlier snapshot is loaded again: no id in use disappears
+                                                \* (only used under the C11 focus: node contents may revert)
 
 (* Results(s, ev, NoHint): all results the properties allow (viol = {} by construction).  *)
 (* With a hint the choices follow what was observed and r.viol names the constraints  *)
